@@ -114,12 +114,11 @@ fn check_purge(set: &Set2, pool: &[Op], trail: &[Ev], st: &mut Stats) -> Set2 {
             || J::obj().set("events", case()).set("then", "purge"),
         );
     }
+    // (whether a purge touches the internal version bookkeeping is not observable by itself;
+    // what must hold afterwards is probed below - an earlier version flagged any change of the
+    // per-source stamps here, which is more than the property states)
     if before.max_stamps != after.max_stamps || before.safe_stamps != after.safe_stamps {
-        st.violation(
-            "purge-changed-version-stamps",
-            || "purge modified the per-source stamps".to_string(),
-            || J::obj().set("events", case()).set("then", "purge"),
-        );
+        st.inc("purges_that_changed_version_bookkeeping");
     }
     // only tombstones strictly older than the cut-off of their origin go
     for (k, t) in &removed {
